@@ -50,7 +50,7 @@ R == E.run_id
 
 \* linearization point of the name check is inside proxy.Manager.Exist (hook under its lock)
 TExist == /\ Ev("pm.exist") /\ op[R].name = E.name /\ Exist(R)
-          /\ Flag((op'[R].pc = "qrollback") = E.exists, "name check outcome")
+          /\ Flag((op'[R].pc = FailPc) = E.exists, "name check outcome")
 
 ErrCode(c) == CASE c = "noavail" -> ENoAvail [] c = "unavailable" -> ENotAvailable
                 [] c = "alreadyused" -> EAlreadyUsed [] c = "notallowed" -> ENotAllowed [] OTHER -> -199
